@@ -134,13 +134,15 @@ CodeReading(pl) == IF pl = "query" THEN UP("", "") ELSE CHOOSE x \in Readings(pl
 Supplied(pl) == CodeReading(pl) # UP("", "")
 
 \* ------------------------------------------------------------------ client address
-XFFs == {"none", "10.0.0.5", "10.0.1.5"}
+\* 10.0.0.50: an address whose text extends 10.0.0.5 (a single-host entry must not admit it)
+XFFs == {"none", "10.0.0.5", "10.0.0.50", "10.0.1.5"}
 Loopback == "127.0.0.1"
 \* the client's IP: what a trusted proxy forwarded, else the peer address
 EffIP(trusted, xff) == IF trusted /\ xff # "none" THEN xff ELSE Loopback
 \* ground truth of containment for the networks used here
 NetHas(n) == CASE n = "127.0.0.1"   -> {"127.0.0.1"}
-               [] n = "10.0.0.0/24" -> {"10.0.0.5"}
+               [] n = "10.0.0.0/24" -> {"10.0.0.5", "10.0.0.50"}
+               [] n = "10.0.0.5"    -> {"10.0.0.5"}
 
 \* ------------------------------------------------------------------ instances
 Alice    == AI!Cred("plain", "alice")
@@ -163,7 +165,8 @@ UserLists == <<
     << AI!Entry(<<"127.0.0.1">>, AdminAll, AI!CAny, AI!NoPass) >>,
     << AI!Entry(<<>>, <<AI!PPubAll, AI!PReadAny>>, AI!CAny, AI!NoPass), AI!Entry(<<>>, AdminAll, AliceSha, PwSha) >>,
     << AI!Entry(<<>>, <<AI!PApi>>, Bob, Pw), AI!Entry(<<>>, <<AI!PMetrics, PPlayCam1>>, Alice, Pw) >>,
-    << AI!Entry(<<"10.0.0.0/24">>, AdminAll, AI!CAny, AI!NoPass) >> >>
+    << AI!Entry(<<"10.0.0.0/24">>, AdminAll, AI!CAny, AI!NoPass) >>,
+    << AI!Entry(<<"10.0.0.5">>, AdminAll, Alice, Pw) >> >>
 
 \* instance k: user list (k+1) \div 2, trusted proxies off (odd k) / on (even k)
 NInst == 2 * Len(UserLists)
